@@ -11,6 +11,12 @@ SPEC = Spec(
         Harness(name="fmt", module="internal/e2e", pkg="internal/e2e", common=False,
                 files=dict(_FILES, **{"zz_verif_c14_fmt_test.go": "c14/fmt_test.go"}),
                 test="TestVerifC14Fmt", driver="drv_c14", n={"quick": 60, "thorough": 600}, timeout_s=1200),
+        # the same fmt / marshalling-path enumeration against the libraries of the second toolchain on the image (thorough only):
+        # the dispatch model is hand-written from go1.23 sources; a library-side change (fmt, encoding/json, gob, log/slog) shows here
+        Harness(name="fmt_go126", module="internal/e2e", pkg="internal/e2e", common=False, go="go1.26",
+                files=dict(_FILES, **{"zz_verif_c14_fmt_test.go": "c14/fmt_test.go"}),
+                test="TestVerifC14Fmt", driver="drv_c14", n={"quick": 0, "thorough": 200}, timeout_s=1800,
+                env={"VERIF_C14_THOROUGH_ONLY": "1"}),
         Harness(name="enc", module="internal/e2e", pkg="internal/e2e", common=False,
                 files=dict(_FILES, **{"zz_verif_c14_enc_test.go": "c14/enc_test.go"}),
                 test="TestVerifC14Enc", driver="drv_c14", n={"quick": 3000, "thorough": 40000}, timeout_s=1200),
